@@ -15,17 +15,17 @@ TECHNIQUE = ("Coq: NextPackage as the SET of its possible results (theorems over
              "lock discipline as an invariant of EVERY step, progress + a strictly decreasing measure => Close returns in every schedule under explicit hypotheses; the "
              "cases the full statement fails on are refuted by stuck-state witnesses (vm_compute) and listed as known findings; "
              "+ scripted schedules on the real Conn/Channel with watchdogs, the model predicting every observation")
-RULE = ("cap = ChannelPackageQueueSize = 4; kind = channel 0 / a logical channel (real setup handshake); cancellation modes: own ctx, Conn's ctx, parent of the Conn's ctx, expired deadline. "
-        "fn 1: 0..cap+3 packages fed (reader parked on the full queue above cap), context cancelled BEFORE the calls, nfed+2 NextPackage(wait) calls, each in a settled state: 64 cases. "
+RULE = ("cap = ChannelPackageQueueSize = 4 (also 1; thorough: 1, 2, 8 in the fill-level families); kind = channel 0 / a logical channel (real setup handshake); cancellation modes: own ctx, Conn's ctx, parent of the Conn's ctx, expired deadline. "
+        "fn 1: 0..cap+3 packages fed (reader parked on the full queue above cap), context cancelled BEFORE the calls, nfed+2 NextPackage(wait) calls, each in a settled state: 104 cases. "
         "fn 2: NextPackage started on an empty queue, then cancellation and 0/1/3/cap+2 arriving packets race (order cancel-feed / feed-cancel / concurrent), wait true/false, then "
-        "further calls: the recorded results are judged (96 quick, 1920 thorough). fn 3: NextPackageUntil (nil callback / always continue / stop at 2nd) with 0..cap queued, "
-        "with and without a final DONE: 162 cases. fn 4: SendPackage / QueuePackage+SendRemainingPackets / SendRemainingPackets of a queued partial packet with a cancelled "
-        "context, 1..3 packets, and cancellation WHILE transport write 0/1/2 of 4 is held back by the transport: 120 cases; output = results + writes after cancellation. "
+        "further calls: the recorded results are judged (96 quick, 1920 thorough). fn 3: NextPackageUntil (nil callback / always continue / stop at 2nd / callback failing at its 1st or 2nd package, "
+        "which makes the library consume the rest of the response) with 0..cap queued, with and without a final DONE: 270 cases. fn 4: SendPackage / QueuePackage+SendRemainingPackets / SendRemainingPackets of a queued partial packet with a cancelled "
+        "context, 1..3 packets, and cancellation WHILE transport write 0/1/2 of 4 is held back by the transport: 96 cases; output = results + writes after cancellation. "
         "fn 5: Close (channel / via Conn.Close) with 0/1/cap packages queued, then every API call (NextPackage x2, NextPackageUntil x2, Queue/SendRemaining/SendPackage, Close, "
         "Reset, Logout, Close), transport writes afterwards, 0/3 late packets for the closed channel. fn 6: response abandoned after 0/1/3 of 0..cap+3 packages, then Close; "
         "peer answers the logout at once / after 300 ms / (thorough) never - bounded by the documented minute + 15 s. fn 8: the same on channel 0 above cap+1 undelivered (outcome "
         "schedule dependent, recorded in the input). fn 9: Close / Conn.Close while another goroutine waits in NextPackage with a live context, and with the context cancelled "
-        "50 ms later. fn 7: Conn.Close with 0/1/2/5 channels with 0..cap packages queued, healthy transport / failing 1, 3, 9, 10 times / failing for good; output: returned, "
+        "50 ms later. fn 7: Conn.Close with 0/1/2/5 channels with 0..cap packages queued, healthy transport / failing 1, 3, 9, 10 times / failing for good, also AFTER the connection context (or its parent) was cancelled; output: returned, "
         "every channel reports closed, transport closed, reader goroutine returned, goroutine count back to the count before the connection was made. "
         "Watchdogs: a call that must return gets 4 s, the known blocking scenarios are observed for 3 s; only booleans reach the case file. Distinct by (fn, input).")
 TRUSTED = ["Coq 8.16.1 kernel + vm_compute (no native_compute)",
